@@ -114,13 +114,19 @@ def run_for_property(prop, rep, seed=0, jobs=16):
     # whole-package benign twins: layout change (ast.unparse) and renaming of every local variable
     from . import transforms
     twins = {}
-    for kind in ("unparse", "rename_locals"):
+    base = subprocess.run([os.path.join(HERE, "check"), prop, "--root", REPO, "--no-write", "--tier", "quick"], capture_output=True, text=True, timeout=300)
+    kinds = ["unparse", "rename_locals"] + sorted(transforms.KINDS)
+
+    def one(kind):
         d = transforms.make(kind, REPO)
         try:
-            r = subprocess.run([os.path.join(HERE, "check"), prop, "--root", d, "--no-write", "--tier", "quick"], capture_output=True, text=True, timeout=300)
+            return subprocess.run([os.path.join(HERE, "check"), prop, "--root", d, "--no-write", "--tier", "quick"], capture_output=True, text=True, timeout=300)
         finally:
             shutil.rmtree(d, ignore_errors=True)
-        base = subprocess.run([os.path.join(HERE, "check"), prop, "--root", REPO, "--no-write", "--tier", "quick"], capture_output=True, text=True, timeout=300)
+
+    with ThreadPoolExecutor(max_workers=min(jobs, 8)) as ex:
+        twin_results = list(ex.map(one, kinds))
+    for kind, r in zip(kinds, twin_results):
         twins[kind] = r.returncode
         if r.returncode == base.returncode:
             n_ok += 1
@@ -128,7 +134,7 @@ def run_for_property(prop, rep, seed=0, jobs=16):
         else:
             fl = [l.strip()[:200] for l in r.stdout.splitlines() if l.strip().startswith("FAIL") or "ANALYSIS-ERROR" in l]
             bad.append(f"whole-package benign transformation '{kind}' changes the verdict: exit {r.returncode} vs {base.returncode}: {fl[:2]}")
-    rep.extra["selftest"] = {"variants": len(muts) + 2, "passed": n_ok, "skipped": n_skip, "package_twins": twins,
+    rep.extra["selftest"] = {"variants": len(muts) + len(kinds), "passed": n_ok, "skipped": n_skip, "package_twins": twins,
                              "skipped_ids": [r["id"] for r in results if r["status"] == "skipped"]}
     for b in bad:
         rep.error("self-test: " + b)
